@@ -61,7 +61,7 @@ def run(quiet=False):
         expect('unit:' + fn, unit_of(B(fn), ops[-1])[0], want)
     # error discipline
     for fn, want in (('err_discarded', 'DISCARDED'), ('err_discarded_ok', 'DISCARDED'), ('err_propagated', 'PROPAGATED'), ('err_logged', 'LOGGED'),
-                     ('err_partially_handled', 'HANDLED-ARM'), ('err_absent_is_an_answer', 'ERR-RETURNED'), ('err_other_kind_swallowed', 'HANDLED-ARM'), ('err_wrapped_by_helper', 'ERR-RETURNED'), ('err_panics', 'PANICS'), ('err_inspected_then_propagated', 'RETURNED')):
+                     ('err_partially_handled', 'HANDLED-ARM'), ('err_absent_is_an_answer', 'ERR-RETURNED'), ('err_other_kind_swallowed', 'HANDLED-ARM'), ('err_wrapped_by_helper', 'ERR-RETURNED'), ('err_refused_by_helper', 'ERR-RETURNED'), ('err_panics', 'PANICS'), ('err_inspected_then_propagated', 'RETURNED')):
         c = B(fn).calls(r'^std::fs::remove_file$')[0]
         expect('err:' + fn, err_handling(B(fn), c)[0], want)
     # truth tables
